@@ -131,7 +131,7 @@ def race_cli(text, timeout_s):
         f.write(text)
         path = f.name
     cmds = {'cvc5-1.0.3': ['/usr/bin/cvc5', '--lang=smt2', '--strings-exp', f'--tlimit={int(timeout_s * 1000)}', path],
-            'z3-4.8.12': ['/usr/bin/z3', '-smt2', f'-T:{int(timeout_s)}', path]}
+            'z3-4.8.12': ['/usr/bin/z3', '-smt2', f'-T:{int(timeout_s)}', '-memory:4000', path]}
     procs = {nm: subprocess.Popen(c, stdout=subprocess.PIPE, stderr=subprocess.DEVNULL, text=True) for nm, c in cmds.items()}
     out = {}
     deadline = time.time() + timeout_s + 3
@@ -345,20 +345,21 @@ def discharge(ob, timeout_ms=None, portfolio='fallback', on_model=None):
     fs = list(ob.hyps) + [z3.Not(ob.goal)]
     if abstract_check(fs) == 'unsat':
         return dict(status='discharged', solver='z3-5.1(seq-free abstraction)', seconds=time.time() - t0, model=None, by={'z3-5.1': 'unsat'})
-    r, payload = None, None
-    if not has_big_numeral(fs):
-        # no constant that could force z3's sequence solver to build a huge model: solve in-process (forking costs ~40 ms per query);
-        # if z3 gives up after 5 s the same solver is not asked again - the other solvers take over
-        r, payload = inprocess_check(fs, min(timeout_ms, 5000) / 1000.0, on_model)
-    else:
-        r, payload = isolated_check(fs, timeout_ms / 1000.0, on_model)
+    # order of attack (measured: z3 4.8 answers in 0.1 s several sequence goals on which z3 5.1 spins for 20 s, cvc5 decides others):
+    #   1. z3 5.1 in-process, 3 s (only when no numeral could force a huge sequence model)
+    #   2. cvc5 and z3 4.8 racing as subprocesses on the SMT-LIB text
+    #   3. z3 5.1 in a forked child with the full budget
+    r, payload = 'unknown', None
+    big = has_big_numeral(fs)
+    if not big:
+        r, payload = inprocess_check(fs, min(timeout_ms, 3000) / 1000.0, on_model)
     by['z3-5.1'] = r
     status = {'unsat': 'discharged', 'sat': 'refuted'}.get(r, 'unknown')
     solver = 'z3-5.1'
-    if status == 'unknown' and portfolio != 'all':
-        # z3 5.1 gave up: cvc5 and z3 4.8 race on the same SMT-LIB text; the first decisive answer counts
+    text = None
+    if status == 'unknown':
         text = to_smt2(ob.hyps, ob.goal)
-        for nm, rr in race_cli(text, timeout_ms / 1000.0).items():
+        for nm, rr in race_cli(text, max(timeout_ms / 1000.0, 20.0)).items():
             by[nm] = rr
             if rr in ('sat', 'unsat'):
                 st2 = 'discharged' if rr == 'unsat' else 'refuted'
@@ -366,9 +367,24 @@ def discharge(ob, timeout_ms=None, portfolio='fallback', on_model=None):
                     status, solver = st2, nm
                 elif status != st2:
                     status = 'disagree'
-    elif portfolio == 'all':
+    if status == 'unknown' or (status == 'refuted' and payload is None and on_model is not None):
+        # last resort, and the way to get a model (inputs for the replay) when a command-line solver found the counterexample
+        r3, payload3 = isolated_check(fs, timeout_ms / 1000.0, on_model)
+        if r3 in ('sat', 'unsat'):
+            by['z3-5.1'] = r3
+            st3 = 'discharged' if r3 == 'unsat' else 'refuted'
+            if status == 'unknown':
+                status, solver = st3, 'z3-5.1'
+            elif status != st3:
+                status = 'disagree'
+            if payload3 is not None:
+                payload = payload3
+    if portfolio == 'all' and text is None:
         text = to_smt2(ob.hyps, ob.goal)
+    if portfolio == 'all':
         for nm, fn in (('cvc5-1.0.3', cvc5_check), ('z3-4.8.12', z3old_check)):
+            if nm in by and by[nm] in ('sat', 'unsat'):
+                continue
             if status != 'unknown' and portfolio != 'all':
                 break
             rr, dt = fn(text, timeout_ms / 1000.0)
